@@ -23,20 +23,39 @@ type Ev struct {
 	N    int    `json:"n"`
 }
 
+// FSVisible is set by the replay driver from the run's fsvisible parameter before Start.
+var FSVisible bool
+
 var (
 	mu      sync.Mutex
 	cond    = sync.NewCond(&mu)
 	active  bool
 	enabled bool // inside the SchedBegin..SchedEnd window
+	hasFS   bool // the recorded schedule contains file-system operations (param fsvisible)
 	free    bool // schedule exhausted: everybody runs freely
 	sched   []Ev
 	head    int
-	tids    = map[int64]int{} // goroutine id -> thread id
+	tids    []tidEnt // goroutine id -> thread id (a slice: map accesses are race-instrumented inside the runtime)
 	nextTID = 1
 	timers  []*vtimer
 	diverge string
 	started time.Time
 )
+
+type tidEnt struct {
+	g int64
+	t int
+}
+
+//go:norace
+func tidOf(g int64) (int, bool) {
+	for _, e := range tids {
+		if e.g == g {
+			return e.t, true
+		}
+	}
+	return 0, false
+}
 
 type vtimer struct {
 	ch     chan time.Time
@@ -61,9 +80,10 @@ func Start(s []Ev) {
 	sched = s
 	head = 0
 	active = len(s) > 0
+	hasFS = FSVisible
 	enabled = false
 	free = false
-	tids = map[int64]int{goid(): 0}
+	tids = []tidEnt{{goid(), 0}}
 	nextTID = 1
 	timers = nil
 	started = time.Now()
@@ -83,6 +103,8 @@ func Enable(on bool) {
 }
 
 // fireTimersLocked performs timer-firing events at the head of the schedule.
+//
+//go:norace
 func fireTimersLocked() {
 	for active && !free && head < len(sched) && sched[head].T < 0 {
 		ev := sched[head]
@@ -108,16 +130,28 @@ func fireTimersLocked() {
 }
 
 // Point blocks until it is this goroutine's turn in the recorded schedule.
+//
+// Under the native race detector (race confirmation replays) the synchronisation this
+// function performs itself must not create happens-before edges between the threads of
+// the program under test: raceOff/raceOn make the detector ignore it, so that the
+// detector sees exactly the program's own synchronisation, executed in the recorded order.
+//
+//go:norace
 func Point(kind, pos string) {
 	if !active {
 		return
 	}
+	if !hasFS && len(kind) > 3 && kind[:3] == "fs:" {
+		return // file-system operations were not scheduling points in this exploration
+	}
+	raceOff()
+	defer raceOn()
 	mu.Lock()
 	defer mu.Unlock()
 	if free || !enabled {
 		return
 	}
-	me, ok := tids[goid()]
+	me, ok := tidOf(goid())
 	if !ok {
 		return // a goroutine the engine does not know (runtime helpers)
 	}
@@ -153,12 +187,22 @@ func Go(pos string, f func()) {
 	ready := make(chan struct{})
 	go func() {
 		mu.Lock()
-		tids[goid()] = tid
+		tids = append(tids, tidEnt{goid(), tid})
 		mu.Unlock()
 		close(ready)
 		f()
 	}()
 	<-ready
+}
+
+//go:norace
+func register(tid int, ready chan struct{}) {
+	raceOff()
+	mu.Lock()
+	tids = append(tids, tidEnt{goid(), tid})
+	mu.Unlock()
+	close(ready)
+	raceOn()
 }
 
 // ---- virtual timers ----
